@@ -199,6 +199,23 @@ def targets_through_convert():
             targets = [20, 40, 60, 80, 95] + ([32700] if suffix else [])
             want = sorted(targets if filt else [10, 20, 30, 40, 50, 60, 70, 80, 90, 95] + ([32700] if suffix else []))
             res.append(ob("targets/empty lines keep their labels,filter=%d,suffix=%d" % (filt, suffix), labs == want, want, labs))
+        # a bare line number in any arm of any IF form is a jump to that line: the emitted text jumps to exactly the lines the source
+        # names, and every source line is labelled once
+        chains = {"THEN n ELSE IF THEN m ELSE k": ("IF A=1 THEN 100 ELSE IF A=2 THEN 200 ELSE 10", [10, 100, 200]), "THEN n ELSE IF THEN m": ("IF A=1 THEN 100 ELSE IF A=2 THEN 200", [100, 200]),
+                  "THEN n ELSE m": ("IF A=1 THEN 100 ELSE 200", [100, 200]), "THEN n": ("IF A=1 THEN 100", [100]), "THEN stmt ELSE IF THEN m ELSE IF THEN n ELSE stmt": ("IF A=1 THEN B=1 ELSE IF A=2 THEN 200 ELSE IF A=3 THEN 100 ELSE B=2", [100, 200]),
+                  "THEN n ELSE IF THEN stmt ELSE m": ("IF A=1 THEN 100 ELSE IF A=2 THEN B=1 ELSE 200", [100, 200]), "THEN GOTO n ELSE IF THEN GOTO m ELSE GOTO k": ("IF A=1 THEN GOTO 100 ELSE IF A=2 THEN GOTO 200 ELSE GOTO 10", [10, 100, 200]),
+                  "THEN n:stmt ELSE m": ("IF A=1 THEN B=1:GOTO 100 ELSE 200", [100, 200]), "nested THEN IF THEN n ELSE m": ("IF A=1 THEN IF B=2 THEN 100 ELSE 200", [100, 200])}
+        for name, (stmt, want) in chains.items():
+            for filt in (False, True):
+                try:
+                    text = convert("10 %s\n100 END\n200 END\n" % stmt, add_standard_prefix=False, filter_unused_linenum=filt)
+                    jumps = sorted(int(x) for x in re.findall(r"(?:GOTO|THEN) (\d+)", text))
+                    labels = sorted(int(x) for x in re.findall(r"(?m)^(\d+)(?: |$)", text))
+                    got = dict(jumps=jumps, labels=labels)
+                except Exception as e:  # noqa
+                    got = "%s: %s" % (type(e).__name__, str(e)[:60])
+                exp = dict(jumps=want, labels=[10, 100, 200] if not filt else sorted(set(want)))
+                res.append(ob("targets/bare line numbers in IF arms/%s,filter=%d" % (name, filt), got == exp, exp, got, stmt))
         # more than one ON ERR / ON BRK statement is refused - however many different lines they name
         for name, prog, refused in (("two ON ERR, same target", "10 ON ERR GOTO 100\n20 ON ERR GOTO 100\n100 END\n", True), ("two ON ERR, two targets", "10 ON ERR GOTO 100\n20 ON ERR GOTO 200\n100 END\n200 END\n", True),
                                     ("two ON ERR on one line", "10 ON ERR GOTO 100:ON ERR GOTO 100\n100 END\n", True), ("second ON ERR in an IF arm", "10 ON ERR GOTO 100\n20 IF A=1 THEN ON ERR GOTO 100\n100 END\n", True),
@@ -250,4 +267,7 @@ def targets_through_convert():
 
 
 def obligations():
-    return reference_steps() + dispatcher() + wiring() + targets_through_convert()
+    # "with unused-label filtering on": through the command line that is -l and nothing else (shared with C11)
+    from tx.p_c05 import share
+    from tx.p_c11 import command_line
+    return reference_steps() + dispatcher() + wiring() + targets_through_convert() + share("cli/", command_line())
